@@ -17,6 +17,7 @@ MODES = ["P", "H", "L", "follow", "P", "H", "L", "follow", "P+follow", "H+follow
 def expected(cwd, roots, mode, m, n, depth_first, deny=()):
     w = refwalk.Walk("L" if mode.endswith("follow") else mode, m, n, depth_first, True, cwd)
     w.deny = set(deny)
+    w.unreadable_required = True
     out = []
     for r in roots:
         w.run(r, lambda e: out.append(e.path) and False)
@@ -151,13 +152,16 @@ def worker(job):
             deny = []
             uid = None
             if fault:
-                cand = [d for d in dirs if d != "r"]
+                # (sometimes the starting point itself is the directory that cannot be listed: it is still evaluated - last, under -depth)
+                cand = [d for d in dirs if d != "r"] + (["r"] if rng.random() < 0.25 else [])
                 if cand:
                     dd = rng.choice(cand)
                     os.chmod(os.path.join(sb, dd), 0)
                     deny = [dd]
                     uid = 65534
                     st.inc("trees_with_unreadable_dir")
+                    if dd == "r":
+                        st.inc("trees_whose_starting_point_is_unreadable")
                     pool = ["r", "r", "plain", "missing"] + [d for d in dirs if not (d + "/").startswith(dd + "/")][:3]
             cfgs = gen_configs(rng, pool, maxd, ncfg)
             cases = []
